@@ -19,6 +19,7 @@ import (
 	"go.uber.org/zap/zapcore"
 
 	"verifsim/core"
+	"verifsim/simrt"
 	_ "verifsim/h/ids"
 	_ "verifsim/h/kvs"
 	_ "verifsim/h/master"
@@ -46,7 +47,20 @@ func TestWorker(t *testing.T) {
 		os.Setenv("GODEBUG", strings.TrimPrefix(os.Getenv("GODEBUG")+",randseednop=0", ","))
 	}
 	time.Local = time.UTC // segment names are parsed in the local zone
+	simrt.TraceYields = os.Getenv("VERIF_TRACE_YIELDS") != ""
 	logger.RunningAtomicLevel.SetLevel(zapcore.FatalLevel + 1)
+	if os.Getenv("VERIF_LOG") != "" { // debugging aid: lindb's own error log on stderr
+		lv := zapcore.ErrorLevel
+		switch os.Getenv("VERIF_LOG") {
+		case "info":
+			lv = zapcore.InfoLevel
+		case "debug":
+			lv = zapcore.DebugLevel
+		case "warn":
+			lv = zapcore.WarnLevel
+		}
+		logger.RunningAtomicLevel.SetLevel(lv)
+	}
 	out := os.Stdout
 	if p := os.Getenv("VERIF_OUT"); p != "" {
 		f, err := os.Create(p)
